@@ -5,6 +5,7 @@ import sm2_oracle as o
 
 ID = "C01"
 PROPS = "Props/C01.v"
+GEN = ["sm2", "sm2sig"]      # curve constants (sm2/p256.go) and default_uid / limits / mode values (sm2/sm2.go)
 LEGS = [{"driver": "c01", "runner": ("sm2", "Extract/ExtractSM2.v", "Sm2_model")}]
 COQ_TIMEOUT = 2400
 
@@ -23,12 +24,21 @@ LEVEL_NOTE = ("Relative to C03: the curve methods ScalarBaseMult / ScalarMult / 
               "math/big, cryptobyte and SM3 are modelled (SM3 by the GM/T 0004 transcription SM3Spec), tied by the differential run. "
               "The retry branches r=0, r+k=n, s=0 cannot be reached through the API with honest hashing: covered by the theorem only. "
               "'never share the same r' is proved as: equal r with equal e forces x([k1]G) = x([k2]G) mod n, and fresh calls read fresh stream positions; "
-              "no probability statement is made. If [s]G+[t]P is the point at infinity the code uses x = 0 (the standard is silent).")
+              "no probability statement is made. If [s]G+[t]P is the point at infinity the code uses x = 0 (the standard is silent). "
+              "sm2.Verify(pub, hash, r, s) is the digest-level entry point: it takes the caller's bytes as the integer e without bounding them, so a "
+              "33-byte 'hash' equal to e+n is accepted exactly when e is (the relation depends on e mod n only, theorem C01_verify_characterisation); "
+              "the property speaks about messages and IDs (Sm2Verify / PublicKey.Verify hash them to 32 bytes), so this is outside it and only recorded here. "
+              "Concurrency: the theorems are about one call; that concurrent signers do not influence each other is checked by the concurrent leg of the "
+              "driver (op C: 2/8/32 goroutines on their own yielding readers, each signature compared with the pair its own stream prescribes, all r distinct), "
+              "a test over schedules that happen, not a proof over all schedules (C20 covers races). "
+              "Constants: theorem C01_source_constants_tied compares p, n, a, b, G, BitSize/8+8, default_uid, the ID limit and mode values with Gen/*.v "
+              "regenerated from sm2/p256.go and sm2/sm2.go on every run.")
 TRUSTED_BASE = [
     "model coq/SM2/SM2Model.v, coq/SM2/DER.v written by hand from sm2/sm2.go and cryptobyte; tied by the correspondence run of this check",
     "specification coq/SM2/SM2Spec.v typed from GM/T 0003.2 over EC/SM2Curve.v (GM/T 0003.5 constants) and SM3/SM3Spec.v (GM/T 0004); validated against the standard's example by the python oracle self-test and the Annex corpus cases",
     "extraction: ExtrOcamlBasic + ExtrOcamlZBigInt (positive/N/Z -> zarith Big_int_Z; Pos/N/Z add, sub, mul, div, modulo, compare, shifts, ...); no other Extract directive; OCaml 4.13.1, zarith 1.12, dune; runner ocaml/sm2/main.ml",
-    "Go driver harness/cmd/c01 (deterministic counting reader, case catalogue)",
+    "Go driver harness/cmd/c01 (deterministic counting reader, case catalogue, concurrent leg with yielding readers)",
+    "translator targets sm2 (build-ec) and sm2sig (harness/cmd/gen/target_sm2sig.go): constants read from the source into coq/Gen/SM2Params.v, SM2SigParams.v",
     "python oracle checks/sm2_oracle.py (SM3, affine EC, sign/verify per GM/T 0003.2, strict DER) for the predicate",
 ]
 ASSUMPTIONS = [
